@@ -63,3 +63,27 @@ Lemma monitor_frame_needs_hypothesis :
 Proof.
   exists (fun s => Some (S s, None)), (fun s => S s). vm_compute. discriminate.
 Qed.
+
+(* any two monitoring configurations that respect the frame agree with each other (through the unmonitored run): the
+   outcome is the same over the whole product of monitoring options, not only "with versus without" *)
+Lemma monitor_frame_pair : forall (St L : Type) (learned : St -> L) (step : St -> option (St * option Qc))
+    (mon1 mon2 : St -> St),
+  (forall s, learned (mon1 s) = learned s) ->
+  (forall s, learned (mon2 s) = learned s) ->
+  (forall s1 s2, learned s1 = learned s2 ->
+     match step s1, step s2 with
+     | None, None => True
+     | Some (a, e1), Some (b, e2) => learned a = learned b /\ e1 = e2
+     | _, _ => False
+     end) ->
+  forall tol fuel level max_iter s hist,
+  learned (fst (fit_monitored St step mon1 tol fuel level max_iter s hist)) =
+  learned (fst (fit_monitored St step mon2 tol fuel level max_iter s hist)) /\
+  snd (fit_monitored St step mon1 tol fuel level max_iter s hist) =
+  snd (fit_monitored St step mon2 tol fuel level max_iter s hist).
+Proof.
+  intros St L learned step mon1 mon2 H1 H2 Hs tol fuel level max_iter s hist.
+  destruct (monitor_frame St L learned step mon1 H1 Hs tol fuel level max_iter s hist) as [A1 B1].
+  destruct (monitor_frame St L learned step mon2 H2 Hs tol fuel level max_iter s hist) as [A2 B2].
+  split; [rewrite <- A1; exact A2 | rewrite <- B1; exact B2].
+Qed.
